@@ -66,12 +66,21 @@ def evaluate(seed):
         shutil.copy(os.path.join(VERIF, "properties.jsonl"), sv)
         caught = {}
         env = dict(ENV, VERIF_DIR=sv)
-        for p in claimed():
-            rc3, out3 = sh(f"{VERIF}/bin/rdcheck check -property {p} -tier quick -root {d}", env=env)
-            rules = sorted(set(re.findall(r"^  (?:VIOLATED|UNDECIDED) ([^: ]+):", out3, re.M)))
-            keys = re.findall(r"^  (?:VIOLATED|UNDECIDED) (\S+) at", out3, re.M)
-            if rc3 != 0:
-                caught[p] = {"rules": rules, "n": len(keys), "first": keys[:2]}
+        rdbin = os.environ.get("RDCHECK_BIN", VERIF + "/bin/rdcheck")
+        rc3, out3 = sh(f"{rdbin} all -root {d}", env=env, timeout=1800)
+        cur = []
+        for line in out3.splitlines():
+            m = re.match(r"^   (VIOLATED|UNDECIDED)\s+(\S+)", line)
+            if m:
+                cur.append(m.group(2))
+                continue
+            m = re.match(r"^(C\d+): obligations=", line)
+            if m:
+                if cur and m.group(1) in claimed():
+                    caught[m.group(1)] = {"rules": sorted(set(k.split(":")[0] for k in cur)), "n": len(cur), "first": cur[:2]}
+                cur = []
+        if rc3 != 0 and not caught:
+            caught["?"] = {"rules": ["checker-error"], "n": 0, "first": [out3[-300:]]}
         shutil.rmtree(sv, ignore_errors=True)
         meta.update({
             "confirmed": {
@@ -93,7 +102,12 @@ def evaluate(seed):
         shutil.rmtree(d, ignore_errors=True)
 
 
+def one(s):
+    m = evaluate(s.rstrip("/"))
+    print(os.path.basename(s.rstrip("/")), "->", m.get("status"), {k: v["rules"] for k, v in m.get("caught_by", {}).items()}, flush=True)
+
+
 if __name__ == "__main__":
-    for s in sys.argv[1:]:
-        m = evaluate(s.rstrip("/"))
-        print(os.path.basename(s.rstrip("/")), "->", m.get("status"), {k: v["rules"] for k, v in m.get("caught_by", {}).items()})
+    from concurrent.futures import ThreadPoolExecutor
+    with ThreadPoolExecutor(int(os.environ.get("SEED_JOBS", "4"))) as ex:
+        list(ex.map(one, sys.argv[1:]))
